@@ -15,6 +15,15 @@ def _mk(cls_name, t, v=None):
     import aioswitcher.device as d
     v = v or {}
     cls = getattr(d, cls_name)
+    via = v.get("via")
+    if via:     # a class the USER derived from the device class: plain, as a dataclass of its own, or twice removed
+        import dataclasses
+        sub = type("My" + cls_name, (cls,), {"__doc__": "user subclass"})
+        if via == "dataclass-subclass":
+            sub = dataclasses.dataclass(sub)
+        elif via == "sub-subclass":
+            sub = type("MyOther" + cls_name, (sub,), {})
+        cls = sub
     base = (t, d.DeviceState[v.get("state", "ON")], v.get("id", "ab1234"), v.get("key", "18"), v.get("ip", "1.2.3.4"),
             v.get("mac", "AA:BB:CC:DD:EE:FF"), v.get("name", "name"))
     if cls_name == "SwitcherPowerPlug":
@@ -253,6 +262,8 @@ def streams(ctx):
     # ... nor on what the other fields hold: the 36 pairs with every other field drawn from the whole of its domain
     varied = [(c, t, gen_variant(ctx.rng)) for _ in range(ctx.n(25, 400)) for c in classes for t in types]
     ctx.run_cases(CONSTRUCT, "constructions-with-the-other-fields-over-their-domains", varied, exhaustive=False, sample_every=211)
+    derived = [(c, t, {"via": via}) for via in ("subclass", "dataclass-subclass", "sub-subclass") for c in classes for t in types]
+    ctx.run_cases(CONSTRUCT, "constructions-through-classes-the-user-derived", derived, exhaustive=True, sample_every=37)
     cats = [c.name for c in d.DeviceCategory]
     ctx.run_cases(EXTRA, "constructions-with-extra-arguments",
                   [(c, t, how, cat) for c in classes for t in types for how in ("positional", "keyword", "replace", "replace+category") for cat in cats],
